@@ -68,7 +68,8 @@ def gen_case(rnd, prop, tier):
             # no tables are built for C12, so attribute sizes may be huge (cost-based choices must not change validity)
             sizes = [rnd.choice([1, 2, 3, 7, 50, 400, 1500, 1200, 10000]) for _ in range(n)]
         cliques, kind = gen.gen_cliques(rnd, attrs, max_width=4)
-        return dict(engine='A', attrs=attrs, sizes=sizes, cliques=cliques, kind=kind, elims=[gen_elim(rnd, attrs)], fresh_names=rnd.random() < 0.3)
+        return dict(engine='A', attrs=attrs, sizes=sizes, cliques=cliques, kind=kind, elims=[gen_elim(rnd, attrs)], fresh_names=rnd.random() < 0.3,
+                    copy_mode=rnd.choice([None, None, None, 'pickle', 'deepcopy']))
     n = rnd.choice([1, 2, 3, 3, 4, 4, 4, 5, 5, 6])
     attrs = gen.gen_names(rnd, n)
     sizes = gen.gen_sizes(rnd, n, max_size=4, max_joint=4096)
@@ -90,7 +91,7 @@ def gen_case(rnd, prop, tier):
     if rnd.random() < 0.4:
         inplace = dict(seed=rnd.getrandbits(32), mode=rnd.choice(['iadd', 'assign']))
     return dict(engine='A', attrs=attrs, sizes=sizes, cliques=cliques, kind=kind, pots=pots, scale=scale, total=total,
-                elims=elims, scheds=scheds, shift=shift, fold=rnd.choice(['harness', 'combine']), fresh_names=rnd.random() < 0.3, inplace=inplace,
+                elims=elims, scheds=scheds, shift=shift, fold=rnd.choice(['harness', 'combine']), layout=rnd.choice(['C', 'C', 'C', 'F']), fresh_names=rnd.random() < 0.3, inplace=inplace,
                 interleave=rnd.choice([None, None, 'project', 'datavector']))
 
 
@@ -152,6 +153,11 @@ def fold(mbi, case, model, shift=None):
             a = np.transpose(arr, order) if len(cl) > 1 else arr
             shape = [dom.config[x] if x in cl else 1 for x in tgt]
             pots[tgt] = mbi.Factor(pots[tgt].domain, pots[tgt].values + a.reshape(shape))     # item assignment after construction
+    if case.get('layout') == 'F':
+        # same tables, column-major memory: what Factor.transpose / project views and F-ordered caller arrays look like
+        for m in model.cliques:
+            if len(m) > 1:
+                pots[m] = mbi.Factor(pots[m].domain, np.asfortranarray(pots[m].values))
     return pots
 
 
@@ -253,6 +259,23 @@ def run_c12(mbi, case):
                 x['msg'] += ' [second JunctionTree in the same process: same cliques, domain extended by an attribute in no clique]'
             viol += v2
             faults['same-cliques-other-domain'] = 1
+        if case.get('copy_mode'):
+            # the constructed tree after a pickle round trip (what GraphicalModel.save / load do to it) or a deep copy: still the same valid tree
+            import pickle
+            try:
+                tree3 = pickle.loads(pickle.dumps(tree)) if case['copy_mode'] == 'pickle' else copy.deepcopy(tree)
+            except Exception as e:
+                raise Violation('no-exception', 'exception:%s:%s' % (case['copy_mode'], type(e).__name__), '%s of a JunctionTree raised %s: %s' % (case['copy_mode'], type(e).__name__, e))
+            v3, nodes3, edges3, order3 = check_tree(case, tree3, elim, faults, probes)
+            und = lambda es: sorted(sorted([tuple(a), tuple(b)]) for a, b in es)
+            if not v3 and (sorted(map(tuple, nodes3)) != sorted(map(tuple, nodes)) or und(edges3) != und(edges)):
+                # (the schedule of the copy only has to be valid - checked above - not the same linear extension)
+                v3 = [Violation('jt-copy-differs', 'jt-copy-differs', 'the copy has nodes %s and edges %s, the original %s and %s' % (nodes3, edges3, nodes, edges)).as_dict()]
+            for x in v3:
+                x['sig'] += ':after-' + case['copy_mode']
+                x['msg'] += ' [the tree after a %s round trip]' % case['copy_mode']
+            viol += v3
+            faults['tree-' + case['copy_mode'] + '-roundtrip'] = 1
         measure = [hypergraph(case), mode, eo, sorted(sorted(ix[a] for a in n) for n in nodes), 'huge' if max(case['sizes']) >= 400 else 'small']
         nontrivial = len(nodes) >= 2 and (fill or elim is not None)
         # the GraphicalModel wrapper must expose the same tree
